@@ -3,6 +3,18 @@ each property.  A unit may serve several properties; its obligations are
 generated once per check run."""
 
 UNITS = {
+    'C09': {
+        'functions': ['penman._lexer:TokenIterator.__bool__', 'penman._lexer:TokenIterator.peek',
+                      'penman._lexer:TokenIterator.next'],
+        'regex': ['linebreak', 'lexer'],
+        'lemmas': [],
+        'level': 'other',
+        'explanation': 'Proved: str input is split with a pattern whose language is exactly {CRLF, CR, LF} with CRLF tried '
+                       'first, and lex() uses it (regex obligations on the live module constant); the token iterator '
+                       'iterparse is driven by; lexer facts (a comment runs to the end of its line, blanks are only '
+                       'separators).  That every container gives the same graphs and that dump/dumps/load/loads '
+                       'round-trip with their metadata is decided by the bounded stand-in.',
+    },
     'C20': {
         'functions': ['penman.__main__:_process_in', 'penman.__main__:_process_out', 'penman.__main__:_check'],
         'lemmas': [],
